@@ -37,7 +37,8 @@ PID = "C06"
 #  (3) relib's '$' (no MULTILINE) does not match before a string-final newline (Python's re does);
 #  (4) str.lower() is modelled by an uninterpreted function with ~1400 point axioms (50 ms/query);
 #      replaced by the exact piecewise "codepoint + delta" map as one balanced if-then-else term
-#      (table computed from the running interpreter's own str.lower for every code point).
+#      (table computed from the running interpreter's own str.lower for every code point);
+#  (5) re.Pattern.findall realises the subject string; re-expressed through relib's symbolic finditer.
 
 
 def _install_engine_shims() -> bool:
@@ -174,6 +175,24 @@ def _install_engine_shims() -> bool:
             return LazyIntSymbolicStr([SymbolicInt(x + z3.substitute(delta_tree, (var, x)))])
 
     LazyIntSymbolicStr.lower = lower
+
+    # (5) re.Pattern.findall realises its argument; express it through the symbolic finditer
+    from crosshair import core as ch_core
+
+    def findall(self, string, pos=0, endpos=None):
+        out = []
+        ng = self.groups
+        for m in relib._finditer(self, string, pos, endpos):
+            if ng == 0:
+                out.append(m.group(0))
+            elif ng == 1:
+                g = m.group(1)
+                out.append("" if g is None else g)
+            else:
+                out.append(tuple(["" if g is None else g for g in m.groups()]))
+        return out
+
+    ch_core._PATCH_REGISTRATIONS[re.Pattern.findall] = findall
     relib._verif_c06_shims = True
     return True
 
@@ -492,6 +511,20 @@ def _no_nul(s) -> None:
         assume(ch != "\x00")
 
 
+def _pin(code, n: int) -> int:
+    """Binary case split of a symbolic int over 0..n-1 (one path per value, log2(n) decisions)."""
+    assume(0 <= code)
+    assume(code < n)
+    lo, hi = 0, n - 1
+    while lo < hi:
+        mid = (lo + hi) // 2
+        if code <= mid:
+            hi = mid
+        else:
+            lo = mid + 1
+    return lo
+
+
 CLASSES = ["lower", "upper", "digit", "other", "nonascii"]
 
 
@@ -593,8 +626,7 @@ def _reserved_body(dn: str, idx: int) -> bool:
 
 
 def h_reserved(dn: str, nwords: int, idx: int) -> bool:
-    assume(0 <= idx < nwords)
-    return native(_reserved_body, dn, concrete(idx))
+    return native(_reserved_body, dn, _pin(idx, nwords))
 
 
 # (b) solver-chosen inputs, concrete execution: quoted_name with quote=True/False/None (constructing
@@ -622,9 +654,7 @@ def _flag_body(dn: str, flag: str, s: str) -> bool:
 
 
 def h_flag(dn: str, flag: str, code: int) -> bool:
-    assume(0 <= code < len(POOL2))
-    code = concrete(code)
-    return native(_flag_body, dn, flag, POOL2[code])
+    return native(_flag_body, dn, flag, POOL2[_pin(code, len(POOL2))])
 
 
 DOT_ALPHABET = ["a", "A", '"', "`", "]", ".", "%", " "]
@@ -652,8 +682,7 @@ def _dotted_body(dn: str, schema: Optional[str], tname: str, cname: str) -> bool
 
 def h_dotted(dn: str, with_schema: bool, code: int) -> bool:
     k = len(DOT_ALPHABET)
-    assume(0 <= code < k ** 3)
-    code = concrete(code)
+    code = _pin(code, k ** 3)
     a, b, c = DOT_ALPHABET[code % k], DOT_ALPHABET[(code // k) % k], DOT_ALPHABET[code // (k * k)]
     return native(_dotted_body, dn, a if with_schema else None, b, c)
 
